@@ -142,3 +142,19 @@ pub(crate) fn point_u8() {
     kani::assert(a.is_bot() && a.is_top(), "C03:point_bot_top");
     kani::assert(Point::<u8, ()>::lattice_from(a) == a, "C04:lattice_from_preserves_value");
 }
+
+/// DomPair with a key lattice that is NOT totally ordered (Pair of Max): outside the lattice claim of C01, but the
+/// documented join for incomparable keys is "both the keys and the values are merged" (C04).  Complete for u8 payloads.
+#[kani::proof]
+pub(crate) fn dompair_incomparable_keys() {
+    type K = Pair<Max<u8>, Max<u8>>;
+    let (ka, kb): (K, K) = (Sym::sym(), Sym::sym());
+    let (va, vb): (Max<u8>, Max<u8>) = (Sym::sym(), Sym::sym());
+    kani::assume(ka.partial_cmp(&kb).is_none());
+    let mut x = DomPair::new(ka, va);
+    let changed = x.merge(DomPair::new(kb, vb));
+    let (k, v) = x.into_reveal();
+    kani::assert(changed, "C02:dompair_incomparable_keys_always_change");
+    kani::assert(k == merged(ka, kb), "C04:dompair_incomparable_keys_merges_keys");
+    kani::assert(v == merged(va, vb), "C04:dompair_incomparable_keys_merges_values");
+}
